@@ -47,13 +47,19 @@ theorem bufL_foldl_subscribeCore (l : List Topic) (s : St) (q : Nat) (r : Nat) :
   | nil => rfl
   | cons t l ih => simp only [List.foldl_cons]; rw [ih, bufL_subscribeCore]
 
+theorem bufL_foldl_unsubscribeCore (l : List Topic) (s : St) (q : Nat) (r : Nat) :
+    bufL (l.foldl (fun s t => unsubscribeCore s q t) s).rxs r = bufL s.rxs r := by
+  induction l generalizing s with
+  | nil => rfl
+  | cons t l ih => simp only [List.foldl_cons]; rw [ih, bufL_unsubscribeCore]
+
 theorem bufL_rxCloseInternal (s : St) (q : Nat) (r : Nat) : bufL (rxCloseInternal s q).rxs r = bufL s.rxs r := by
   cases hx : s.rxs[q]? with
   | none => rw [rxCloseInternal_none s q hx]
   | some x =>
     rw [rxCloseInternal_eq s q x hx]
     split
-    · apply bufL_modAt_preserve; intro x; rfl
+    · exact bufL_foldl_unsubscribeCore _ _ _ r
     · rfl
 
 /-- one `send` on a duplicate-free subscriber list: each live, non-full target gets the message
